@@ -59,7 +59,7 @@ class C19(common.SpecCheck):
 
     def gen(self, rng, k):
         for _ in range(20):
-            spec, meta = classes.gen_mixed(rng, [("S", 4), ("O", 3), ("K", 3), ("P", 1), ("A", 2)])
+            spec, meta = classes.gen_mixed(rng, [("S", 4), ("O", 3), ("K", 3), ("P", 1), ("A", 2), ("A2", 2)])
             if any(key.startswith("(") for p_ in (spec.get("partitioning") or {}).values() for key in p_):
                 continue     # flattening: outside the stated default (see assumptions)
             break
